@@ -139,6 +139,106 @@ def lf_check(case):
     return Res(list(seen.items()), o=(layout, ns % RATIO == 0), tr=ntr)
 
 
+def wsweep_cases(tier, seed):
+    top = 1321 if tier == "quick" else 3001
+    out = [(layout, w) for layout in ("NP2.4", "NP2.1") for w in range(588, top, 12)]
+    if tier == "thorough":
+        out += [("NP2.1", w) for w in range(3000, 20001, 12 * 7)]
+    return out
+
+
+def wsweep_check(case):
+    """every processing-window size: LF length, sync, and equality with the single-window conversion"""
+    layout, w = case
+    root = os.path.join(synth.proc_scratch(), "c12w")
+    ns = 3 * w + 7 if w < 3000 else 2 * w + 5
+    data = np2.content(ns, 5, "broadband", seed=SEED[0] + 3)
+    nlf = -(-ns // RATIO)
+    v = []
+    res = {}
+    for ww in (w, 12 * ns):
+        try:
+            status, files = _run(root, layout, ns, data, ww)
+        except Exception as e:
+            return Res([("lf:exc:%s" % type(e).__name__, "%s ns=%d nwindow=%d: %s: %s" % (layout, ns, ww, type(e).__name__, e))])
+        for sh, (f, cols) in files.items():
+            raw = np.fromfile(f, dtype=np.int16)
+            if raw.size != nlf * len(cols):
+                v.append(("lf:length", "%s ns=%d nwindow=%d: LF file of shank %d holds %.2f samples, expected ceil(ns/12) = %d" % (layout, ns, ww, sh, raw.size / len(cols), nlf)))
+                return Res(v)
+            res[(ww, sh)] = raw.reshape(nlf, len(cols))
+            if not np.array_equal(res[(ww, sh)][:, -1], data[::RATIO, -1]):
+                v.append(("lf:sync", "%s ns=%d nwindow=%d: LF sync is not every 12th AP sync word" % (layout, ns, ww)))
+    for (ww, sh), a in res.items():
+        if ww == w:
+            b = res[(12 * ns, sh)]
+            if np.max(np.abs(a.astype(int) - b.astype(int))) > 1:
+                v.append(("lf:window-dependence", "%s ns=%d: LF with nwindow=%d differs from the single-window conversion by %d LSB" % (layout, ns, w, int(np.max(np.abs(a.astype(int) - b.astype(int)))))))
+    shutil.rmtree(root, ignore_errors=True)
+    return Res(v, o=(layout,), tr=2)
+
+
+def rerun_cases(tier, seed):
+    return [(layout, same, comp) for layout in ("NP2.1", "NP2.4") for same in (False, True) for comp in (False, True)]
+
+
+def rerun_check(case):
+    """a forced second conversion leaves the same LF stream as the first"""
+    import neuropixel
+    layout, same_object, compress = case
+    root = os.path.join(synth.proc_scratch(), "c12r")
+    np2.clean(root)
+    ns = 1811
+    data = np2.content(ns, 5, "broadband", seed=SEED[0] + 9)
+    sites = np2.sites_for([0, 1, 1, 1]) if layout == "NP2.4" else np2.sites_for([0, 0, 0, 0])
+    ap = np2.make_session(root, layout, sites, data)
+    nlf = -(-ns // RATIO)
+    v = []
+
+    def lf_files():
+        out = {}
+        if layout == "NP2.4":
+            for sh in (0, 1):
+                out[sh] = os.path.join(np2.shank_folder(root, sh), np2.STEM + ".lf")
+        else:
+            out[0] = os.path.join(root, np2.LABEL, np2.STEM + ".lf")
+        return out
+
+    def read_all():
+        res = {}
+        for sh, stem in lf_files().items():
+            f = stem + (".cbin" if (compress and os.path.exists(stem + ".cbin") and not os.path.exists(stem + ".bin")) else ".bin")
+            sr = spikeglx.Reader(f, sort=False)
+            res[sh] = (tuple(sr.shape), np.array(sr._raw[0:sr.ns]) if f.endswith("cbin") else np.array(sr._raw[:, :]), os.path.getsize(f) if f.endswith(".bin") else None)
+            sr.close()
+        return res
+    try:
+        target = ap
+        conv = neuropixel.NP2Converter(target, post_check=True, compress=compress)
+        conv.init_params(nwindow=600)
+        st1 = conv.process()
+        first = read_all()
+        if not same_object:
+            conv.sr.close()
+            if layout == "NP2.1" and compress:
+                target = ap.with_suffix(".cbin")
+            conv = neuropixel.NP2Converter(target, post_check=True, compress=compress)
+            conv.init_params(nwindow=600)
+        st2 = conv.process(overwrite=True)
+        conv.sr.close()
+        second = read_all()
+        if (st1, st2) != (1, 1):
+            v.append(("lf:rerun:status", "%r: statuses %r" % (case, (st1, st2))))
+        for sh in first:
+            (shape1, a, size1), (shape2, b, size2) = first[sh], second[sh]
+            if shape2 != (nlf, a.shape[1]) or not np.array_equal(a, b) or (size2 is not None and size2 != nlf * a.shape[1] * 2):
+                v.append(("lf:rerun", "%r: after a forced re-conversion the LF file of shank %d has shape %r / %r bytes (first run: %r)" % (case, sh, shape2, size2, shape1)))
+    except Exception as e:
+        v.append(("lf:rerun:exc:%s" % type(e).__name__, "%r: %s: %s" % (case, type(e).__name__, e)))
+    shutil.rmtree(root, ignore_errors=True)
+    return Res(v, o=(layout, compress), tr=2)
+
+
 def offset_cases(tier, seed):
     return [(off, n) for off in (0, 12, 600, 1201) for n in (1200, 1811)]
 
@@ -195,6 +295,8 @@ CHECK = {
     ],
     "clauses": [
         Clause("lfp", "LF length, sync, window independence, whole-trace equality, metadata", cases=lf_cases, check=lf_check, setup=_setup),
+        Clause("window-sweep", "every processing-window size (multiple of 12) from 588 to 1320 (thorough: to 20000)", cases=wsweep_cases, check=wsweep_check, setup=_setup),
+        Clause("rerun", "forced re-conversion (same / fresh converter, compress on/off) reproduces the LF stream", cases=rerun_cases, check=rerun_check, setup=_setup),
         Clause("sub-range", "LFP of a sub-range through the offset entry point = LFP of the cut recording", cases=offset_cases, check=offset_check, setup=_setup),
     ],
 }
